@@ -452,7 +452,7 @@ def cli_cases(draw):
     c = draw(e2e_cases())
     c['n'] = min(c['n'], 300)
     c['history'] = draw(st.sampled_from([None, 'no_save_file', 'other_ruleset', 'all_lower']))
-    c['duplicate_value'] = draw(st.integers(0, 7)) if draw(st.integers(0, 2)) == 0 else None
+    c['duplicate_value'] = draw(st.integers(0, 7)) if draw(st.booleans()) else None
     if c['history'] is None:
         c['session_name'] = draw(st.sampled_from([None, 'mine', 'side by side', 'night.run-2', 'sess\u00e9', 'default_run']))
         c['long_options'] = draw(st.booleans())
@@ -461,7 +461,7 @@ def cli_cases(draw):
 
 
 def run_cli(rec, seed, shard, nshards, tier):
-    n = {'quick': 4, 'thorough': 30}[tier]
+    n = {'quick': 8, 'thorough': 30}[tier]
     core.hyp_run(rec, prop_cli, cli_cases(), n, seed, shrink=False)
 
 
